@@ -17,6 +17,8 @@ payload encoder that the harness checks on recorded encoder invocations).
 import BV.Lemmas.HeaderStored
 import BV.Lemmas.HeaderStoredDecode
 import BV.Lemmas.HeaderStreamBound
+import BV.Lemmas.HeaderGuard
+import BV.Lemmas.HeaderBlocks
 
 namespace BV.Props.C08
 open BV.Bits BV.Bits.Out BV.Header BV.Stored BV.HeaderSpec
@@ -358,5 +360,116 @@ theorem stream_bound_sharp :
       Run (8 * 19) [98] (8 * 19 + 8 * (98 + 4) + 7) ∧ BlocksOK 2 [98] ∧ 98 + 2 = 100 ∧
       (8 * 19 + 8 * (98 + 4) + 7 + 2 + 7) / 8 = 123 ∧ maxCompressedSize 100 = 122 :=
   ⟨_, rfl, rfl, rfl, rfl, Run.cons (by decide) (Run.nil _), trivial, rfl, by decide, by decide⟩
+
+
+/-! ## round 2: `Guard` proved, `BlocksOK` derived from the stream machine's control skeleton -/
+
+/-- `guard_holds`: the size decision of `WriteMetaBlockInternal` (model
+`BV.Stored.writeMetaBlockInternal`: early `should_compress` branch, compressed attempt,
+"`bytes + 4 + saved_byte_location < storage_ix >> 3` ⇒ rewind and store uncompressed", the
+separate empty last block of appendable streams).  For EVERY verdict of `should_compress` and
+EVERY bit string the compressed attempt may have appended: on a meta-block of 1‥2^24 bytes,
+started below bit 256 of the staging storage (so that the `storage_ix as u8` of the rewind is
+exact), the call does not panic, `Guard` holds of the data-carrying block, and what follows it is
+at most the 2-bit empty last block with its padding. -/
+theorem guard_holds (appendable catable actualIsLast : Bool) (data : List Nat) (o : MbOracle) (w : Writer)
+    (hcat : catable = true → appendable = true)
+    (h1 : 1 ≤ data.length) (h2 : data.length ≤ 2 ^ 24) (hw : w.length < 256) :
+    ∃ r, writeMetaBlockInternal appendable catable actualIsLast data o w = ok r ∧
+      Guard w.length data.length r.body.length ∧ w.length ≤ r.body.length ∧
+      r.body.length ≤ r.fin.length ∧ r.fin.length ≤ (r.body.length + 2 + 7) / 8 * 8 := by
+  obtain ⟨r, h, g1, g2, g3, g4, _⟩ := wmbi_guard appendable catable actualIsLast data o w hcat h1 h2 hw
+  exact ⟨r, h, g1, g2, g3, g4⟩
+
+/-- the literal `4` of the fallback test and the two `>> 3` are the ones of the Rust source -/
+theorem guard_literals : lit litsWmbi 17 = 4 ∧ lit litsWmbi 8 = 3 ∧ lit litsWmbi 18 = 3 := by decide
+
+/-- non-vacuity of `guard_holds`: an attempt of 100 one-bits on a 3-byte block is replaced by the
+stored representation (4 header bytes incl. the 7 carry bits, 3 payload bytes) -/
+example : ∃ r, writeMetaBlockInternal false false false [1, 2, 3] { shouldCompress := true, attempt := List.replicate 100 true }
+      (List.replicate 7 true) = ok r ∧ r.body.length = 8 * 7 ∧ r.fin = r.body := ⟨_, rfl, rfl, rfl⟩
+
+/-- the stream head is below bit 256: the precondition of `guard_holds` for the first
+invocation (later ones start from at most 7 carry bits) -/
+theorem head_below_256 (p : Params) (input : List Nat) (st : Start) (hq : 2 ≤ p.quality)
+    (hh : p.sizeHint < 2 ^ 64) (hs : streamStart true p input = ok st) (hw : st.whole = false) :
+    st.bits.length < 256 := by
+  obtain ⟨s1, s2, s3⟩ := streamStart_length p input st hq hh hs
+  obtain ⟨w1, _⟩ := lastBytesBits_le p
+  have hk := (encodeBase128_spec (effectiveParams p input.length).sizeHint
+    (effective_sizeHint_lt p input.length hh) []).2.2.1
+  have hpre : st.prelude ≤ 2 := by rw [s1]; split <;> omega
+  have hne : ¬ input.length = st.prelude := by
+    intro h; have := s2.mpr h; rw [hw] at this; exact Bool.false_ne_true this
+  simp only [hne, if_false] at s3
+  rw [s3]
+  exact headLen_lt_256 _ _ _ _ w1 hk hpre
+
+/-- `stream_total_le_bound_modelled`: the stream bound with `Guard` discharged.  A stream
+produced at quality ≥ 2 without any flush, any parameters with `size_hint < 2^35`: head, then
+meta-blocks written by `WriteMetaBlockInternal` with ARBITRARY payload-coder choices
+(`RunW`: each step is the model applied to a staging storage that continues the bit position),
+then the empty last block — at most `BrotliEncoderMaxCompressedSize` bytes.  Remaining
+hypotheses: the meta-block lengths are 1‥2^24 (`MaxMetablockSize`), they add up to the input,
+and `BlocksOK` (per invocation: `nonfinal_metablock_covers_block` below). -/
+theorem stream_total_le_bound_modelled (p : Params) (input : List Nat) (st : Start)
+    (hq : 2 ≤ p.quality) (hh : p.sizeHint < 2 ^ 35) (hn : input.length < 2 ^ 54)
+    (hs : streamStart true p input = ok st) (hw : st.whole = false)
+    (steps : List (List Nat × MbOracle × Bool)) (Pm : Nat)
+    (hrun : RunW (p.appendable || p.catable) p.catable st.bits.length steps Pm)
+    (hlen : ∀ s ∈ steps, 1 ≤ s.1.length ∧ s.1.length ≤ 2 ^ 24)
+    (hblocks : BlocksOK st.prelude (steps.map (·.1.length)))
+    (hsum : (steps.map (·.1.length)).sum + st.prelude = input.length) :
+    (Pm + 2 + 7) / 8 ≤ maxCompressedSize input.length := by
+  have hcat : p.catable = true → (p.appendable || p.catable) = true := by intro h; simp [h]
+  exact (stream_total_bound p input st hq hh hn hs).2 hw _ _ (runW_run hcat hrun hlen) hblocks hsum
+
+set_option maxRecDepth 16384 in
+/-- non-vacuity: a `RunW` of one 1-byte meta-block behind the head of `exampleTight` -/
+example : ∃ st, streamStart true exampleTight [1, 2, 3] = ok st ∧
+    RunW true true st.bits.length [([3], { shouldCompress := false, attempt := [] }, true)] (8 * 18 + 8 * 4) := by
+  refine ⟨_, rfl, ?_⟩
+  exact RunW.cons (D := 18) (w := []) rfl (by decide) rfl (RunW.nil _)
+
+/-- `nonfinal_metablock_covers_block` (from w-stream's model of `compress_stream`): in the main
+loop, for PROCESS and FINISH (no FLUSH, no metadata), a payload-encoder invocation that is not the
+last one has `force_flush = false`, sees exactly one full input block (`hi - lo = 2^lgblock`) and
+the meta-block `[lf, hi)` it may close contains that block.  With `block_size_ge_2_14` this is
+`BlocksOK` for every non-final meta-block: its length plus the (at most 2, first block only)
+prelude bytes taken from its front is ≥ 2^14. -/
+theorem nonfinal_metablock_covers_block {o : BV.Stream.Oracle} {op : Nat} {s s' : BV.Stream.St}
+    {io io' : BV.Stream.Io} {c : BV.Stream.Ctl} (hI : BV.Stream.Inv s) (hop : op = 0 ∨ op = 2)
+    (h : BV.Stream.slowStep o op s io = .ok (s', io', c)) :
+    io'.reqs = io.reqs ∨
+    ∃ req, io'.reqs = io.reqs ++ [req] ∧ req.site = 0 ∧ req.forceFlush = false ∧
+      req.lo = s.lastProcessedPos ∧ req.hi = s.inputPos ∧ req.lf = s.lastFlushPos ∧ req.lf ≤ req.lo ∧
+      (req.isLast = false → req.hi - req.lo = s.blockSize ∧ s.blockSize ≤ req.hi - req.lf) :=
+  BV.StreamBlocks.slowStep_nonfinal_request_full_block hI hop h
+
+/-- at quality ≥ 2 the input block is at least 2^14 bytes (after `ensure_initialized`) -/
+theorem block_size_ge_2_14 (s : BV.Stream.St) (hni : s.isInitialized = false)
+    (hq : ¬ ((BV.Stream.ensureInitialized s).params.quality = 0 ∨ (BV.Stream.ensureInitialized s).params.quality = 1)) :
+    2 ^ 14 ≤ (BV.Stream.ensureInitialized s).blockSize :=
+  BV.StreamBlocks.blockSize_ge s hni hq
+
+/-- lengths that each (but the last) cover 2^14 bytes, the first counted with the prelude, are `BlocksOK` -/
+theorem blocks_ok_of_cover (lens : List Nat) (extra : Nat)
+    (h : ∀ i, i + 1 < lens.length → 2 ^ 14 ≤ lens.getD i 0 + (if i = 0 then extra else 0)) :
+    BlocksOK extra lens :=
+  BV.StreamBlocks.blocksOK_of_cover lens extra h
+
+/-
+WHAT IS STILL NOT ONE THEOREM.  `BlocksOK` is derived per invocation (as C01's
+`requests_tile_input` is): the stream model records the requests of ONE `compress_stream` call
+(`Io.reqs`) and has no run-level object (a list of calls with the list of meta-blocks they closed),
+so "the meta-block lengths of the whole never-flushed stream" — the `lens` of
+`stream_total_le_bound_modelled` — are not a term of that model.  Missing in
+`BV/Model/Stream.lean` for a single end-to-end statement: (a) a `run : List Call → St → …`
+with the concatenated `reqs` and, per request, whether it closed the meta-block (`emit`, known
+from the oracle) — i.e. the boundaries `lf` of consecutive closed meta-blocks; (b) the link
+between its oracle answer `Ans.bits` and `writeMetaBlockInternal` (w-metablock's writers).
+The two models of the head (`BV.Header.streamStart`, `BV.Stream.encMagic/encPrelude`) are tied
+to the same code by their correspondence runs, not to each other by a theorem.
+-/
 
 end BV.Props.C08
